@@ -64,6 +64,7 @@ TAINT_TEMPLATES = [
     ('globals_alias', 'g = globals\ndef f(HOLEA, HOLEB):\n    return HOLEA + HOLEB + HOLEC\n'),
     ('vars_in_class', 'class K:\n    HOLEA = vars()\n    def m(self, HOLEB):\n        HOLEC = HOLEB\n        return HOLEC\n'),
     ('star_import', 'from m import *\ndef f(HOLEA):\n    HOLEB = HOLEA\n    return HOLEB + HOLEC\n'),
+    ('star_import_relative', 'from . import *\ndef f(HOLEA):\n    HOLEB = HOLEA\n    return HOLEB + HOLEC\n'),
     ('eval_in_lambda_default', 'def f(HOLEA, HOLEB=lambda: eval("1")):\n    HOLEC = HOLEA\n    return HOLEC\n'),
     ('eval_in_comprehension', 'def f(HOLEA):\n    HOLEB = [eval(HOLEC) for HOLEC in HOLEA]\n    return HOLEB\n'),
     ('literal_heavy_eval', 'def f(HOLEA):\n    HOLEB = "some long text" + "some long text" + "some long text" + "some long text"\n    return eval(HOLEA) + HOLEB + HOLEC\n'),
